@@ -1,21 +1,21 @@
-SPECIFICATION Spec
+SPECIFICATION TSpec
 CONSTANTS
-  Basenames = {"a", "b"}
-  MaxDepth = 2
+  Basenames = {"a", "b", "c", "x"}
+  MaxDepth = 3
+  Names <- TraceNames
   RegPaths <- DefaultRegPaths
-  Builtin = {}
+  Builtin = {"x"}
   UserConfs <- DefaultConfs
-  MaxCtx = 1
-  MaxPkgs = 2
+  MaxCtx = 1000
+  MaxPkgs = 1
   Legacy = {}
-INVARIANT TypeOK
+CONSTRAINT Reached
 INVARIANT LookupOK
-INVARIANT ProjOK
 INVARIANT HookOK
 INVARIANT NodesOK
 PROPERTY OutcomeOK
 PROPERTY FailedCallAtomic
 PROPERTY ReRegisterNoop
 PROPERTY ExitRestores
-VIEW View
+POSTCONDITION Accepted
 CHECK_DEADLOCK FALSE
